@@ -23,6 +23,7 @@ BOUNDS["thorough"] += "; the same two concrete large-sample runs"
 OUTSIDE = [
     "rounding of the line-intersection formula (Real mode, 1e-6 relative tolerance on the tangent-line offset)",
     "samples with more than 4 distinct points (the computation is per direction and per vertex)",
+    "integer-typed samples are covered by three concrete runs (80 points) only",
     "code paths that depend on the sample size (blocking, chunking): not reachable with 51-80 symbolic points; two "
     "concrete large samples are run as a guard (obligation large_sample), which is sampling and claimed as such",
 ]
@@ -197,6 +198,9 @@ def h_large_sample(h):
     n, deg, alpha = h.cfg["n"], h.cfg["deg_step"], h.cfg["alpha"]
     rng = np.random.default_rng(h.cfg["seed"])
     sample = np.c_[np.round(rng.weibull(1.4, n) * 2.0, 2), np.round(rng.lognormal(1.0, 0.5, n), 2)]   # ties, tail
+    if h.cfg.get("int"):
+        # integer-typed observations (decimetres, tenths of seconds): same contour as for the same values as floats
+        sample = np.round(sample * 10).astype(np.int64)
     c = C.DirectSamplingContour(_M(), alpha, sample=sample, deg_step=deg)
     h.reach()
     M = int(round(360 / deg))
@@ -231,6 +235,8 @@ def obligations(tier):
     # concrete large samples: n * (number of directions + 2) on both sides of 2**24
     yield ("large_sample", h_large_sample, {"n": 60000, "deg_step": 1, "alpha": 0.05, "seed": 3}, {})
     yield ("large_sample", h_large_sample, {"n": 300000, "deg_step": 5, "alpha": 0.001, "seed": 4}, {})
+    for deg, alpha in ((8, 0.1), (30, 0.25), (5, 0.05)):
+        yield ("large_sample", h_large_sample, {"n": 80, "deg_step": deg, "alpha": alpha, "seed": 5, "int": True}, {})
     for d in DIVISORS:
         if tier == "quick" and d < 5:
             continue   # 360..90 directions: minutes each, thorough tier
@@ -242,6 +248,6 @@ def obligations(tier):
                         # (900 s for 6 directions; timeouts under load for 12-18 directions)
             rep = 17 + (d % 4) if K == 3 else 14 + (d % 4)
             yield ("tangent", h_tangent, {"deg_step": d, "distinct": K, "repeat": rep, "alpha": alpha},
-                   {"timeout_ms": 120000 if tier == "quick" else 900000})
+                   {"timeout_ms": 120000 if tier == "quick" else 900000, "budget_s": 1500 if tier == "quick" else 7200})
     for alpha in (0.3, 0.07, 0.013):
         yield ("default_n", h_default_n, {"alpha": alpha}, {})
